@@ -533,11 +533,11 @@ theorem ep_execApMap (i : Instr) (key val : Value) (name : String) (pos : Nat) :
   apply rel_bind P.pre (rel_joinable P.pre (rel_readER P.pre _) (ep_inc P)); intro r
   split
   · exact rel_pure P.pre _
-  · apply rel_bind P.pre (rel_liftTH_of P.pre _ _ (fun c a th' h => P.thApStart c a th' h)); intro met
-    apply rel_bind P.pre (rel_joinable P.pre (rel_readER P.pre _) (ep_inc P)); intro k
+  · apply rel_bind P.pre (rel_joinable P.pre (rel_readER P.pre _) (ep_inc P)); intro k
     split
     · exact rel_pure P.pre _
-    · apply rel_bind P.pre
+    · apply rel_bind P.pre (rel_liftTH_of P.pre _ _ (fun c a th' h => P.thApStart c a th' h)); intro met
+      apply rel_bind P.pre
       · apply rel_modifyER P.pre
         intro c c' h
         exact P.streamUpd c c' (sameButStreams_addStreamMapValue h)
